@@ -50,7 +50,7 @@ CHECKS.update({
  "C06": ("other", "5.6", TECH_A + "; exact midpoint-digit computation",
    "Partial. MAX_DIGITS >= longest exact midpoint expansion (computed exactly), capacity formula, and the truncation typestate of the 19-digit stage: at every exit of parse_number either many_digits is set or both iterators are exhausted. Rounding of the truncated value is NOT decided."),
  "C18": ("other", "5.18", TECH_A + "; must-pass-through rule on the monomorphic CFG",
-   "Partial. (1) every path through round / round_nearest_tie_even consults the rounding callback; (2) post-condition of round for every significand with its top bit set and every exponent whose subnormal shift is <= 64: 0 <= exp <= INFINITE_POWER, mant <= HIDDEN_BIT_MASK, exp = INFINITE_POWER => mant = 0 (fields pack without overlap, never NaN), all shifts and mask widths in range; (3) constants; (4) bit-mask helpers for all widths 0..=64 by interval inclusion on the classes {0},{1},[2,62],{63},{64}. The nearest-even decision itself is NOT decided."),
+   "Partial. (1) every path through round / round_nearest_tie_even consults the rounding callback; (2) post-condition of round for every significand with its top bit set and every exponent whose subnormal shift is <= 64: 0 <= exp <= INFINITE_POWER, mant <= HIDDEN_BIT_MASK, exp = INFINITE_POWER => mant = 0 (fields pack without overlap, never NaN), all shifts and mask widths in range; (3) constants; (4) bit-mask helpers for all widths 0..=64 by interval inclusion on the classes {0},{1},[2,62],{63},{64}; (5) exact results on the boundary classes of round (shift-64 subnormals, largest subnormal -> smallest normal, carry into the next binade, overflow to infinity) for the generic nearest-even and the truncating instances. The nearest-even decision on the remaining inputs is NOT decided."),
  "C12": ("other", "5.12", TECH_E + "; " + TECH_A,
    "Partial. Failure discipline (no fallible result dropped unread), no wrapping_* limb arithmetic, every non-wrapping operator in bigint.rs/stackvec.rs proven overflow-free and every narrowing cast value-preserving or an audited half of the widening idiom (modular, under the vector invariant), 5^135 / 5^i constants exact. Exactness of carry chains is NOT decided."),
 })
